@@ -151,6 +151,7 @@ class Indirect(Part):
         return st.fixed_dictionaries({
             "kind": st.sampled_from(["inplace_macro", "use_macro",
                                      "slot_filler", "translate",
+                                     "onerror_on_filler",
                                      "nested_control"]),
             "cls": st.sampled_from(["ValueError", "KeyError", "OSError",
                                     "CustomError", "RecursionError"]),
@@ -197,6 +198,14 @@ class Indirect(Part):
             src = ("<r>%s<p metal:use-macro=\"lib.macros['m']\">"
                    "<u metal:fill-slot=\"s\">f%s</u></p>after</r>" % (
                        pre, fail))
+        elif k == "onerror_on_filler":
+            # the element that fills the slot carries the handler itself
+            env["lib"] = PageTemplate(
+                '<p metal:define-macro="m">m<i metal:define-slot="s">d</i>'
+                'z</p>')
+            src = ("<r>%s<p metal:use-macro=\"lib.macros['m']\">"
+                   "<u%s%s metal:fill-slot=\"s\">f%s</u></p>after</r>" % (
+                       pre, a, oe, fail))
         elif k == "translate":
             def translate(msgid, **kw):
                 # (the fallback of an element with i18n:translate="" is
@@ -216,7 +225,9 @@ class Indirect(Part):
         if not o.ok:
             return Mismatch("indirect:%s propagates %s" % (k, o.exc_name),
                             dict(detail, outcome=o.brief()))
-        if k == "slot_filler":
+        if k == "onerror_on_filler":
+            want = "<r>%s<p>m<u%s>%s</u>z</p>after</r>" % (pre, a, exp_fb)
+        elif k == "slot_filler":
             want = "<r>%s<p>m<div%s>%s</div>z</p>after</r>" % (pre, a, exp_fb)
         else:
             want = "<r>%s<div%s>%s</div>after</r>" % (pre, a, exp_fb)
